@@ -247,6 +247,7 @@ fn ops_for(regime: Regime, size: u16, chunk: usize) -> Vec<Op> {
             v.push(Op::Add(chunk));
             v.push(Op::Add(1.min(chunk)));
             v.push(Op::Add(0));
+            v.push(Op::Add(chunk + 2)); // a piece longer than the chunk size is kept as it is
             for k in 0..=(size as u32 + 1) {
                 v.push(Op::Remove(k));
             }
@@ -264,10 +265,105 @@ fn ops_for(regime: Regime, size: u16, chunk: usize) -> Vec<Op> {
     v
 }
 
+/// "stream": fill / remove(all) until the short piece — the concatenation of everything handed out is the file;
+/// "bulk": n adds to a large sink window, then empty — the file holds all n pieces in order.
+fn long_cell(spec: &Value, dir: &str) -> Value {
+    let mut c = Counters::default();
+    let size = spec["size"].as_u64().unwrap() as u16;
+    let chunk = spec["chunk"].as_u64().unwrap() as usize;
+    let mut bad: Option<(String, String)> = None;
+    if spec["regime"] == "stream" {
+        let flen = spec["flen"].as_u64().unwrap() as usize;
+        let data = content(flen, 43);
+        let path = format!("{dir}/stream_{}", std::process::id());
+        std::fs::write(&path, &data).unwrap();
+        let mut w = Window::new(size, chunk, File::open(&path).unwrap());
+        let mut got: Vec<u8> = vec![];
+        let mut ended = false;
+        let mut rounds = 0;
+        while !ended && rounds < flen / chunk + 10 {
+            rounds += 1;
+            c.transitions += 2;
+            if w.fill().is_err() {
+                bad = Some(("fill-fails".into(), "fill failed on a readable file".into()));
+                break;
+            }
+            if w.len() > size {
+                bad = Some(("exceeds-size".into(), format!("buffer holds {} > size {}", w.len(), size)));
+                break;
+            }
+            for p in w.get_elements().iter() {
+                if ended {
+                    bad = Some(("fill-after-end".into(), format!("a piece of {} bytes was handed out after the first short piece", p.len())));
+                }
+                if p.len() > chunk {
+                    bad = Some(("fill-content".into(), format!("piece of {} bytes, chunk size {chunk}", p.len())));
+                }
+                got.extend_from_slice(p);
+                if p.len() < chunk {
+                    ended = true;
+                }
+            }
+            let n = w.len();
+            let _ = w.remove(n);
+        }
+        if bad.is_none() && (got != data || !ended) {
+            let at = got.iter().zip(data.iter()).position(|(a, b)| a != b).unwrap_or(got.len().min(data.len()));
+            bad = Some(("fill-content".into(), format!("streaming the file through fill/remove handed out {} bytes (short piece seen: {ended}) but the file has {}; first difference at offset {at}", got.len(), data.len())));
+        }
+        let _ = std::fs::remove_file(&path);
+        c.samples.push(json!({"regime": "stream", "size": size, "chunk": chunk, "file_len": flen, "ops": "repeat [fill, remove(len)] until the short piece"}));
+    } else {
+        let n = spec["pieces"].as_u64().unwrap() as usize;
+        let path = format!("{dir}/bulk_{}", std::process::id());
+        let f = OpenOptions::new().write(true).create(true).truncate(true).open(&path).unwrap();
+        let mut w = Window::new(size, chunk, f);
+        let mut want: Vec<u8> = vec![];
+        for i in 0..n {
+            let l = if i % 7 == 3 { chunk + 1 } else { chunk };
+            let p = add_payload(i as u64, l);
+            want.extend_from_slice(&p);
+            c.transitions += 1;
+            if w.add(p).is_err() {
+                bad = Some(("add-bound".into(), format!("add #{i} failed although the buffer holds {} of {}", w.len(), size)));
+                break;
+            }
+        }
+        if bad.is_none() {
+            if w.empty().is_err() {
+                bad = Some(("empty-fails".into(), "empty failed".into()));
+            } else {
+                let on_disk = std::fs::read(&path).unwrap_or_default();
+                if on_disk != want {
+                    bad = Some(("empty-writes".into(), format!("after {n} adds and empty the file holds {} bytes, the pieces add up to {}", on_disk.len(), want.len())));
+                }
+                if !w.is_empty() {
+                    bad = Some(("empty-clears".into(), "buffer not empty after empty()".into()));
+                }
+            }
+        }
+        let _ = std::fs::remove_file(&path);
+        c.samples.push(json!({"regime": "bulk sink", "size": size, "chunk": chunk, "pieces": n}));
+    }
+    c.executions = 1;
+    c.states = 1;
+    c.nontrivial = 1;
+    c.trace_hashes.insert(fnv64(spec.to_string().as_bytes()));
+    if let Some((clause, what)) = bad {
+        c.violations.push(Violation { property: "C18".into(), clause, facts: facts(&[("regime", spec["regime"].clone())]), what: format!("{}: {}", spec, what), replay: json!({"engine": "e3_window_long", "spec": spec}), weight: 5000 });
+    }
+    c.to_json()
+}
+
 pub fn cell(spec: &Value) -> Value {
     let mut c = Counters::default();
     let dir = format!("{}/c18", scratch_root());
     let _ = std::fs::create_dir_all(&dir);
+    if spec["regime"] == "stream" || spec["regime"] == "bulk" {
+        let v = long_cell(spec, &dir);
+        let _ = std::fs::remove_dir_all(&dir);
+        return v;
+    }
     let regime = match spec["regime"].as_str().unwrap() {
         "source" => Regime::Source,
         "sink" => Regime::Sink,
@@ -357,11 +453,22 @@ pub fn check(tier: Tier) -> Outcome {
         }
         cells.push(json!({"regime": "sink", "size": size, "chunk": 1, "flen": 0, "depth": 2, "big_ops": ["add", "remove1", "remove_size"]}));
     }
+    // long streams (buffered-reader boundaries, large counts) and bulk sinks (more pieces than one vectored write takes)
+    for chunk in [3u64, 7, 1000, 1428, 4096, 5000] {
+        for size in [1u64, 4] {
+            for flen in [8191u64, 8192, 8193, 20000, 70000] {
+                cells.push(json!({"regime": "stream", "size": size, "chunk": chunk, "flen": flen}));
+            }
+        }
+    }
+    for pieces in [1023u64, 1024, 1025, 3000, 65535] {
+        cells.push(json!({"regime": "bulk", "size": 65535, "chunk": 2, "pieces": pieces}));
+    }
     let n = cells.len();
     let res = run_cells("c18", cells, &crate::pool_opts(tier));
     let mut out = Outcome::new("C18", "model_checking");
     out.absorb(res, n);
-    out.rule = format!("all sequences of exactly {depth} operations (every prefix checked) for (size, chunk, file length) in {{0..3}} x {{1..3}} x {{0..7}}: source regime (read-only file) over {{fill, remove(0..size+1), add(chunk), add(0)}}, sink regime (fresh write-only file) over {{add(chunk/1/0), remove(0..size+1), empty}}, mixed regime (read+write handle, cursor-independent clauses only); plus sizes 65534/65535 with chunk 1 over a reduced alphabet to depth {bdepth}. After every operation the observers len/is_empty/is_full/get_elements (and the sink file) are compared with a VecDeque reference with a read cursor and an end-seen flag. non-trivial = sequences containing a fill or add. states = sequences, transitions = operations applied to the real Window.");
+    out.rule = format!("all sequences of exactly {depth} operations (every prefix checked) for (size, chunk, file length) in {{0..3}} x {{1..3}} x {{0..7}}: source regime (read-only file) over {{fill, remove(0..size+1), add(chunk), add(0)}}, sink regime (fresh write-only file) over {{add(chunk/1/0), remove(0..size+1), empty}}, mixed regime (read+write handle, cursor-independent clauses only); plus sizes 65534/65535 with chunk 1 over a reduced alphabet to depth {bdepth}; plus streaming whole files of 8191..70000 bytes through fill/remove for chunk sizes 3..5000, and bulk sinks of 1023..65535 pieces. After every operation the observers len/is_empty/is_full/get_elements (and the sink file) are compared with a VecDeque reference with a read cursor and an end-seen flag. non-trivial = sequences containing a fill or add. states = sequences, transitions = operations applied to the real Window.");
     out.assumptions = vec!["fill's boolean result is not part of the statement and is not compared".into(), "only regular files on tmpfs (no short reads from special files)".into()];
     out
 }
